@@ -68,6 +68,9 @@ def gen(family):
             yield T(a)
         for a in RED:
             yield ["boost", T(a), 2.0]
+            # scores of zero or less still rank (after everything positive, in document order)
+            yield ["boost", T(a), 0.0]
+            yield ["boost", T(a), -1.0]
             yield ["not", T(a)]
     elif family == "two":
         for op in NARY:
@@ -91,7 +94,7 @@ def gen(family):
         for op in NARY:
             for a in RED:
                 for b in RED:
-                    for ba, bb in ((2.0, 1.0), (0.5, 1.0), (1.0, 3.0), (0.25, 4.0)):
+                    for ba, bb in ((2.0, 1.0), (0.5, 1.0), (1.0, 3.0), (0.25, 4.0), (0.0, 1.0), (0.0, 0.0), (-1.0, 2.0)):
                         yield [op, [["boost", T(a), ba], ["boost", T(b), bb]]]
         for op in ("andmaybe",):
             for a in RED:
